@@ -60,6 +60,10 @@ pub enum Step {
 	/// build a temporary by-reference collection over existing members with a
 	/// checked constructor, then drop it / take it apart again
 	TempColl { kind: KindTag, members: Vec<MemberSpec>, then: TempThen },
+	/// build a checked retrying collection over `members`, then add `pushed`
+	/// through the safe post-construction accessors (child_mut / AsMut), then
+	/// lock (or read) it and release it again
+	MutateThenLock { members: Vec<MemberSpec>, pushed: MemberSpec, via_as_mut: bool, read: bool },
 	/// after an injected raw fault: every lock whose raw operation panicked
 	/// must refuse try_* (Err) and blocking acquisition (panic).  Stand-alone
 	/// leaves are probed directly, by-value leaves through `fallback`.
